@@ -25,7 +25,8 @@
   Corrections to the specification (clauses of the first version that demanded more than property C01
   states; the property says that indexing PAST THE END of a list and printing undefined are errors and is
   silent on the following, which are now `unspec`):
-    * a NEGATIVE list index (was: undefined);
+    * a NEGATIVE list index (was: undefined) — since the repair of evalDataRef it is an index outside
+      the list like any other: undefined again;
     * printing a map with two or more entries (was: entries sorted by key) or with an undefined member
       (was: error);
   `round(x)` / `round(x, d)`: halves away from zero, exactly (the implementation was repaired to this).
@@ -279,8 +280,8 @@ def nth : List Val → Int → Val
 inductive Key where
   | str (k : Bytes)
   | int (i : Int)
-  | other          -- float, bool, null, collection
-  | undef
+  | other          -- float, bool, null
+  | undef          -- undefined, or a collection: open
 
 inductive Step where
   | next (v : Val)
@@ -297,11 +298,11 @@ def access (base : Val) (nullSafe : Bool) (key : Key) (last : Bool) : Step :=
     else .stop .error
   | .list xs =>
     match key with
-    | .int i => if i < 0 then .stop .unspec else .next (nth xs i)    -- a negative index: open
+    | .int i => .next (nth xs i)          -- an index outside the list (negative ones included): undefined
     | _ => .stop .error                   -- a list indexed by a non-integer
   | .map kvs =>
     match key with
-    | .str k => if k.isEmpty then .stop .unspec else .next ((find kvs k).getD .undefined)
+    | .str k => .next ((find kvs k).getD .undefined)      -- the empty string is a key like any other
     | _ => .stop .unspec                  -- `.n` on a map, non-string keys
   | _ => .stop .error                     -- access on a non-collection
 
@@ -385,9 +386,14 @@ def rangeSpec (init limit step : Int) : Out Val :=
     let count := ((limit - init) + step - 1) / step
     .val (.list ((List.range count.toNat).map fun (k : Nat) => Val.int (init + k * step)))
 
+/-- `m[k] = v` on the association list (the position of an existing key is kept) -/
+def insertB : Binds → Bytes → Val → Binds
+  | [], k, v => [(k, v)]
+  | (k', v') :: r, k, v => if k' == k then (k', v) :: r else (k', v') :: insertB r k v
+
 def augmentSpec (m1 m2 : Binds) : Binds :=
-  -- right wins; the result is a new map (inputs untouched)
-  m2 ++ m1.filter fun kv => (find m2 kv.1).isNone
+  -- right wins; the result is a new map (inputs untouched): the entries of m1, then those of m2, copied in
+  m2.foldl (fun acc kv => insertB acc kv.1 kv.2) (m1.foldl (fun acc kv => insertB acc kv.1 kv.2) [])
 
 def dedupKeys : Binds → List Bytes → List Bytes
   | [], _ => []
@@ -403,11 +409,11 @@ def applyFn (name : Bytes) (args : List Val) : Out Val :=
     | _ => .error
   else if name == nLength then
     match args with
-    | [.list xs] => .val (.int xs.length)
+    | [.list xs] => intRes xs.length          -- (a length beyond int64 is open)
     | _ => .error
   else if name == nKeys then
     match args with
-    | [.map kvs] => .val (.list ((sortByKey (kvs.map fun kv => (kv.1, ()))).map fun kv => Val.str kv.1))   -- order open: compared as a set
+    | [.map kvs] => .val (.list ((sortByKey (kvs.map fun kv => (kv.1, ()))).map fun kv => Val.str kv.1))   -- in sorted order
     | _ => .error
   else if name == nAugmentMap then
     match args with
@@ -538,6 +544,8 @@ def evalAcc (env : Env) : AccessList → Val → Out Val
         | .str k => .str k
         | .int i => .int i
         | .undefined => .undef
+        | .list _ => .undef               -- a collection as a key: open (its text may not exist)
+        | .map _ => .undef
         | _ => .other
       match access base ns key (match rest with | .nil => true | _ => false) with
       | .next v => evalAcc env rest v
